@@ -1058,6 +1058,114 @@ Proof.
   exists (lins tr), H1, H2, σ, s1, s2. auto.
 Qed.
 
+(* ---------------------------------------------------------------- real-time order *)
+
+Lemma filter_split {A} (f : A -> bool) l : forall a x b,
+  filter f l = a ++ x :: b ->
+  exists la lb, l = la ++ x :: lb /\ filter f la = a /\ filter f lb = b.
+Proof.
+  induction l as [|y l IH]; intros a x b H; simpl in H.
+  - destruct a; discriminate.
+  - destruct (f y) eqn:Fy.
+    + destruct a as [|a0 a]; simpl in H; inversion H; subst.
+      * exists [], l. simpl. auto.
+      * destruct (IH _ _ _ H2) as (la & lb & E & Ea & Eb). exists (a0 :: la), lb. simpl. rewrite Fy, Ea, E. auto.
+    + destruct (IH _ _ _ H) as (la & lb & E & Ea & Eb). exists (y :: la), lb. simpl. rewrite Fy, Ea, E. auto.
+Qed.
+
+Lemma wb_split ph a b ph' : wb ph (a ++ b) ph' -> exists ph1, wb ph a ph1 /\ wb ph1 b ph'.
+Proof.
+  revert ph. induction a as [|m a IH]; simpl; intros ph H.
+  - exists ph. split; [constructor|assumption].
+  - inversion H; subst. destruct (IH _ H5) as (ph1 & H1 & H2). exists ph1. split; [constructor; assumption|assumption].
+Qed.
+
+Definition mark_thread (m : mark) : tid :=
+  match m with MInv t _ | MLin t _ _ | MRes t _ _ => t end.
+
+(** between its invocation and its response an operation is linearized, in between *)
+Lemma wb_lin_between ph T ph' t : wb ph T ph' ->
+  (forall m, In m T -> mark_thread m = t -> exists o log, m = MLin t o log) ->
+  forall acc o,
+    (ph t = PInv o \/ exists o' log', ph t = PLin o' log' /\ In (t, o', log') acc) ->
+    forall o2 log2, ph' t = PLin o2 log2 -> In (t, o2, log2) (acc ++ lins T).
+Proof.
+  induction 1 as [ph|ph m tr ph' Hok Hwb IH]; intros Hm acc o Hph o2 log2 Hend.
+  - simpl. rewrite app_nil_r. destruct Hph as [Hph|(o' & log' & Hph & Hin)]; [congruence|].
+    rewrite Hph in Hend. inversion Hend; subst. assumption.
+  - change (m :: tr) with ([m] ++ tr). rewrite lins_app, app_assoc.
+    destruct (Nat.eq_dec (mark_thread m) t) as [Et|Nt].
+    + destruct (Hm m (or_introl eq_refl) Et) as (o3 & log3 & ->). simpl in Hok.
+      eapply (IH (fun m' Hin' => Hm m' (or_intror Hin')) _ o3); [|exact Hend].
+      right. exists o3, log3. split; [simpl; apply upd_same|]. apply in_or_app. right. left. reflexivity.
+    + eapply (IH (fun m' Hin' => Hm m' (or_intror Hin')) _ o); [|exact Hend].
+      assert (Hsame : mark_next ph m t = ph t).
+      { destruct m; simpl in *; apply upd_other; congruence. }
+      rewrite Hsame. destruct Hph as [Hph|(o' & log' & Hph & Hin)]; [left; assumption|].
+      right. exists o', log'. split; [assumption|]. apply in_or_app. left. assumption.
+Qed.
+
+Definition other_thread (t : tid) (l : label val arg) : Prop :=
+  match l with LBegin t' _ | LEnd t' _ _ => t' <> t | LEv _ _ => True end.
+
+(** REAL-TIME ORDER: if operation 1 had returned before operation 2 was invoked
+    (and operation 2 completed), then the sequential history contains
+    operation 1 before operation 2 *)
+Theorem real_time_order c0 c la t1 o1 log1 lb t2 o2 ld log2 le :
+  initial c0 ->
+  exec c0 (la ++ LEnd t1 o1 log1 :: lb ++ LBegin t2 o2 :: ld ++ LEnd t2 o2 log2 :: le) c ->
+  Forall (other_thread t2) ld ->
+  exists H Ha Hm Hb s,
+    seq_hist wfun sk (abs_of c0) H s /\
+    H = Ha ++ (t1, o1, log1) :: Hm ++ (t2, o2, log2) :: Hb.
+Proof.
+  intros Hi He Hld. destruct (lin_total c0 _ c Hi He) as (σ & pl & tr & L).
+  pose proof (lin_hist _ _ _ _ _ _ L) as Hh.
+  destruct (lin_wb _ _ _ _ _ _ Hi L) as (ph & Hwb & _).
+  pose proof (lin_io _ _ _ _ _ _ L) as Hio. unfold io_labels in Hio.
+  rewrite flat_map_app in Hio. simpl in Hio. rewrite flat_map_app in Hio. simpl in Hio.
+  rewrite flat_map_app in Hio. simpl in Hio. fold (io_labels la) (io_labels lb) (io_labels ld) (io_labels le) in Hio.
+  unfold io_marks in Hio.
+  destruct (filter_split _ _ _ _ _ Hio) as (T1 & R1 & E1 & F1 & G1).
+  destruct (filter_split _ _ _ _ _ G1) as (T2 & R2 & E2 & F2 & G2).
+  destruct (filter_split _ _ _ _ _ G2) as (T3 & T4 & E3 & F3 & F4).
+  subst tr R1 R2.
+  (* split the bracket structure at the three marks *)
+  destruct (wb_split _ _ _ _ Hwb) as (p1 & W1 & W1').
+  inversion W1' as [|? ? ? ? Ok1 W2]; subst.
+  destruct (wb_split _ _ _ _ W2) as (p2 & W2a & W2').
+  inversion W2' as [|? ? ? ? Ok2 W3]; subst.
+  destruct (wb_split _ _ _ _ W3) as (p3 & W3a & W3').
+  inversion W3' as [|? ? ? ? Ok3 W4]; subst.
+  (* operation 1 was linearized before its response *)
+  assert (In1 : In (t1, o1, log1) (lins T1)).
+  { pose proof (wb_res_lin _ _ _ (wb_app _ _ _ _ _ W1 (wb_cons _ _ _ _ Ok1 (wb_nil _))) []
+                  (fun t0 o0 log0 (X : PIdle = PLin o0 log0) => match X with end) t1 o1 log1) as X.
+    simpl in X. rewrite lins_app in X. simpl in X. rewrite app_nil_r in X. apply X.
+    apply in_or_app. right. left. reflexivity. }
+  (* operation 2 was linearized between its invocation and its response *)
+  assert (In2 : In (t2, o2, log2) (lins T3)).
+  { simpl in Ok3.
+    pose proof (wb_lin_between _ _ _ t2 W3a) as X.
+    assert (Hm : forall m, In m T3 -> mark_thread m = t2 -> exists o log, m = MLin t2 o log).
+    { intros m Hin Et. destruct m as [t o|t o log|t o log]; simpl in Et; subst t.
+      - exfalso. assert (Y : In (MInv t2 o) (io_labels ld)) by (rewrite <- F3; apply filter_In; auto).
+        unfold io_labels in Y. apply in_flat_map in Y as (l & Hl & Y). rewrite Forall_forall in Hld.
+        specialize (Hld _ Hl). destruct l; simpl in Y, Hld; try destruct Y as [Y|[]]; try destruct Y; try inversion Y; congruence.
+      - eauto.
+      - exfalso. assert (Y : In (MRes t2 o log) (io_labels ld)) by (rewrite <- F3; apply filter_In; auto).
+        unfold io_labels in Y. apply in_flat_map in Y as (l & Hl & Y). rewrite Forall_forall in Hld.
+        specialize (Hld _ Hl). destruct l; simpl in Y, Hld; try destruct Y as [Y|[]]; try destruct Y; try inversion Y; congruence. }
+    specialize (X Hm [] o2 (or_introl (upd_same _ _ _)) o2 log2 Ok3). exact X. }
+  apply in_split in In1 as (A1 & B1 & EA). apply in_split in In2 as (A2 & B2 & EB).
+  exists (lins (T1 ++ MRes t1 o1 log1 :: T2 ++ MInv t2 o2 :: T3 ++ MRes t2 o2 log2 :: T4)), A1,
+         (B1 ++ lins T2 ++ A2), (B2 ++ lins T4), σ.
+  split; [exact Hh|].
+  change (MRes t1 o1 log1 :: T2 ++ MInv t2 o2 :: T3 ++ MRes t2 o2 log2 :: T4)
+    with ([MRes t1 o1 log1] ++ T2 ++ [MInv t2 o2] ++ T3 ++ [MRes t2 o2 log2] ++ T4).
+  rewrite !lins_app, EA, EB. simpl. rewrite <- !app_assoc. simpl. rewrite <- !app_assoc. reflexivity.
+Qed.
+
 End Lin.
 
 Arguments exec {val arg}. Arguments lin {val arg}. Arguments lp_of {val arg}.
